@@ -643,6 +643,20 @@ func (c *Ctx) enterLoop(fr *Frame, head *ssa.BasicBlock, ord int, st *State) *St
 	}
 	c.watermark = c.nsym
 	ws := c.dryRun(fr, loop, st)
+	if ws.everything && c.prog.inRoot(c.fn) && c.dry == 0 && c.pure == 0 {
+		// the body calls something that may write anything: the package invariants (re-established by
+		// every such callee) are carried as loop invariants, so that they are known at the loop head
+		for _, pinv := range c.prog.Invariants {
+			pinv := pinv
+			iv := inferredInv{"package-invariant " + lbl(pinv), func(s2 *State) string {
+				env := &Env{c: c, fn: c.fn, st: s2, old: s2, vars: map[string]*Val{}, fd: fr.fd}
+				return env.evalTop(pinv).Term
+			}}
+			c.oblige("inv-entry", fmt.Sprintf("%s#loop%d.entry[inferred:%s]", name, ord, iv.name), "", nil, iv.f(st), head.Instrs[0].Pos(), "inferred invariant "+iv.name)
+			inferred = append(inferred, iv)
+		}
+		fr.inferred[head] = inferred
+	}
 	st = st.clone()
 	c.havocWrites(fr, st, ws, fmt.Sprintf("L%d", ord))
 	for _, iv := range inferred {
@@ -1044,10 +1058,12 @@ func (c *Ctx) execInstr(fr *Frame, st *State, ins ssa.Instruction) []*exitInfo {
 		c.safety(fr, "make.len", x, and(app("<=", "0", ln.Term), app("<=", ln.Term, cp.Term)))
 		et := x.Type().Underlying().(*types.Slice).Elem()
 		ref := c.allocRef(st, "mk")
+		c.assumeAlways(eq(app("rtype", ref), num(int64(c.prog.typeTag(x.Type())))))
 		c.zeroElems(st, et, ref)
 		c.set(fr, x, &Val{T: x.Type(), Term: app("mkSlice", ref, "0", ln.Term, cp.Term)})
 	case *ssa.MakeMap:
 		ref := c.allocRef(st, "map")
+		c.assumeAlways(eq(app("rtype", ref), num(int64(c.prog.typeTag(x.Type())))))
 		mt := x.Type().Underlying().(*types.Map)
 		hs, vs, _, _ := c.mapComps(mt)
 		p := &Ptr{Comp: hs, Dim: 1, Ref: ref, T0: types.Typ[types.Bool], Elem: types.Typ[types.Bool]}
@@ -1186,6 +1202,7 @@ func (c *Ctx) execAlloc(fr *Frame, st *State, x *ssa.Alloc) {
 		return
 	}
 	ref := c.allocRef(st, "new_"+x.Comment)
+	c.assumeAlways(eq(app("rtype", ref), num(int64(c.prog.typeTag(x.Type())))))
 	p := c.refPtr(et, ref)
 	switch u := et.Underlying().(type) {
 	case *types.Array:
